@@ -1141,6 +1141,11 @@ static tErrorNum DeduceExpectTypeErrMsgMask(unsigned Mask, TempType ActType) {
     }
 }
 
+/* nesting depth of user-defined (FUNCTION) calls currently being evaluated */
+
+#define USERFUNCNEST_MAX 64
+static int UserFuncNest = 0;
+
 /*!------------------------------------------------------------------------
  * \fn     IsFloatExpSign(const char *pStart, const char *pSign)
  * \brief  is the + or - at pSign the exponent sign of a floating point
@@ -1536,6 +1541,14 @@ void EvalStrExpression(tStrComp const* pExpr, TempResult* pErg) {
             tStrComp    CompArg;
             as_dynstr_t stemp;
 
+            /* a function that (directly or indirectly) calls itself would
+               expand without end: */
+
+            if (UserFuncNest >= USERFUNCNEST_MAX) {
+                WrStrErrorPos(ErrNum_RekMacro, &FName);
+                LEAVE;
+            }
+
             PromotedFlags         = eSymbolFlag_None;
             PromotedAddrSpaceMask = 0;
             PromotedDataSize      = eSymbolSizeUnknown;
@@ -1582,7 +1595,9 @@ void EvalStrExpression(tStrComp const* pExpr, TempResult* pErg) {
                 LEAVE2;
             }
             StrCompMkTemp(&CompArg, CompArgStr.p_str, CompArgStr.capacity);
+            UserFuncNest++;
             EvalStrExpression(&CompArg, pErg);
+            UserFuncNest--;
             pErg->Flags |= PromotedFlags;
             pErg->AddrSpaceMask |= PromotedAddrSpaceMask;
             if (pErg->DataSize == eSymbolSizeUnknown) {
